@@ -112,6 +112,13 @@ CHECKS = {
         technique="Lean 4 theorems (Mathlib character orthogonality) + naive-DFT correspondence",
         ref="DESIGN.md §5 C16",
     ),
+    "C17": dict(
+        category="proof",
+        text="Theorems over the reals about the closed-form lines of get_length_scale REGENERATED on every run (mean_length, peak_length, the default smoothing width, droplet_length): the moment-based length is multiplied by lambda when all wave numbers are divided by lambda and is unchanged when the structure factor is multiplied by a constant; the peak length is 2 pi / k* and stretches with the grid when the maximiser scales; the default smoothing width scales like 1/lambda, i.e. is a wave number (default_sigma_covariant - false for the code before the D10 repair, whose default was 0.01 dx); if the smoother is covariant and the width scales like 1/lambda the maximiser scales like 1/lambda; the droplet-counting length is (volume/count)^(1/d) and is multiplied by lambda when all axes are stretched. The generated formulas are evaluated at Float on the tapped intermediate values (structure factor, maximiser, width, count) and must reproduce the returned length; on the real code: stretching over 4 orders of magnitude, field scaling, periodic shifts, plane waves with every admissible mode x spacings over 4-6 orders of magnitude (finite, within half a Fourier bin), droplet-counting formula. Exposed D10 (fixed in /repo 33e2c43); droplet counting on images with winding/overlapping components is a known finding.",
+        note="Trusted: Lean kernel; propext/Classical.choice/Quot.sound; the translator (monitored by the Float correspondence); SmoothData1D's scale covariance and scipy.optimize.minimize_scalar (contracts, monitored by the stretching runs); structure-factor invariances are C16's; the half-bin accuracy of the peak method is numerical and validated by runs only.",
+        technique="Lean 4 theorems over regenerated definitions (translator) + tapped Float correspondence + covariance runs",
+        ref="DESIGN.md §5 C17",
+    ),
 }
 
 NOT_APPLICABLE = {}
